@@ -43,6 +43,11 @@ func (r *runner) root() {
 		r.endAt = r.now()
 		return
 	}
+	if r.h.ChunkStalled != nil {
+		r.rootChunkStalled()
+		r.endAt = r.now()
+		return
+	}
 	if r.h.CancelStalled != nil {
 		r.rootCancelStalled()
 		r.endAt = r.now()
@@ -573,7 +578,22 @@ func (r *runner) publish(s *sess, ot *opTrace, gate chan struct{}, op *Op) {
 			if op.HoldUntil == "close" {
 				r.armHold(s, "authz", "", req)
 			}
-			return &wamp.Publish{Request: req, Options: wamp.Dict{"acknowledge": op.Ack}, Topic: wamp.URI(op.Topic),
+			popts := wamp.Dict{"acknowledge": op.Ack}
+			switch op.Filter {
+			case "exclude":
+				popts["exclude"] = wamp.List{wamp.ID(4242)}
+			case "exclude_authrole":
+				popts["exclude_authrole"] = wamp.List{"nobody-role"}
+			case "exclude_authid":
+				popts["exclude_authid"] = wamp.List{"nobody"}
+			}
+			if op.Disclose {
+				popts["disclose_me"] = true
+			}
+			if op.ToSelf {
+				popts["exclude_me"] = false
+			}
+			return &wamp.Publish{Request: req, Options: popts, Topic: wamp.URI(op.Topic),
 				Arguments: wamp.List{tok}}
 		}, func(it *outItem, _ *expect) {
 			r.events[tok] = map[int]*expect{}
